@@ -209,3 +209,17 @@ func VerifC10Mid() {
 		rt.AssertExcept(d >= iv, "admitted pass times are at least one interval apart", "D10", true)
 	}
 }
+
+// VerifC10Ctor: the checker works with exactly the configured queueing limit and statistic interval
+// (every uint32 millisecond value, no wrap-around in the conversion to nanoseconds).
+func VerifC10Ctor() {
+	t, s := rt.U32("timeoutMs"), rt.U32("statMs")
+	c := NewThrottlingChecker(nil, t, s)
+	rt.Reach("c10.ctor")
+	rt.Assert(c.maxQueueingTimeNs == int64(t)*1000000, "the maximum queueing time in force is the configured one")
+	wantStat := int64(s) * 1000000
+	if s == 0 {
+		wantStat = 1000000000
+	}
+	rt.Assert(c.statIntervalNs == wantStat, "the statistic interval in force is the configured one (1 s when unset)")
+}
